@@ -25,6 +25,7 @@ import shutil
 from hypothesis import strategies as st
 
 import common
+import c17
 import c17gen
 import c17run
 from farm import Found
@@ -39,7 +40,8 @@ RULE = ("Hypothesis draws an EXPRESS file (1-3 schemas, codegen profile with eve
         "the baseline in >= 1 dimension (a plain repeat differs in cwd and address-space layout). Distinct by hash(file, tool, "
         "configuration). Shipped schemas: exp2cxx/exppp/scanner(/exp2python) x {ASLR on, on, off}.")
 
-TIMEOUT = 120
+TIMEOUT = 120         # shipped schemas
+TIMEOUT_GEN = 30      # generated files (they take ~30 ms); a hit is reported as inconclusive, never as a verdict
 TOOLS = ("exp2cxx", "exp2python", "exppp", "schema_scanner")
 SIG_F8 = "exp2cxx:aggregate-bound-printed-from-pointer"
 EXCL_F8 = "aggregate bound given by a CONSTANT or by an entity attribute (open finding: exp2cxx prints a pointer as SetBound value)"
@@ -80,7 +82,7 @@ def read_tree(d):
     return out
 
 
-def run_tool(tool, text, stem, cfg, wd, idx):
+def run_tool(tool, text, stem, cfg, wd, idx, timeout=TIMEOUT_GEN):
     """One run. Returns dict(rc, tree{rel:bytes}, note)."""
     rd = os.path.join(wd, "r%d" % idx)
     shutil.rmtree(rd, ignore_errors=True)
@@ -120,13 +122,13 @@ def run_tool(tool, text, stem, cfg, wd, idx):
         oe = os.path.join(ind, "sub", "earlier_run.exp")
         with open(oe, "w") as f:
             f.write(OTHER_SCHEMA)
-        common.run([exe, oe], cwd=sib, timeout=TIMEOUT, env=env)
+        common.run([exe, oe], cwd=sib, timeout=timeout, env=env)
         shutil.rmtree(sib, ignore_errors=True)
     if cfg["dirty"]:
-        rc0, _o, _e, _t = common.run(pre + [exe, arg], cwd=cwd, timeout=TIMEOUT, env=env)
+        rc0, _o, _e, _t = common.run(pre + [exe, arg], cwd=cwd, timeout=timeout, env=env)
         if rc0 is None:
             return {"rc": None, "tree": {}, "stdout": ""}
-    rc, out, err, _t = common.run(pre + [exe, arg], cwd=cwd, timeout=TIMEOUT, env=env)
+    rc, out, err, _t = common.run(pre + [exe, arg], cwd=cwd, timeout=timeout, env=env)
     if rc is None:
         return {"rc": None, "tree": {}, "stdout": ""}
     tree = read_tree(cwd)
@@ -183,7 +185,7 @@ def suspicious(tree, text, tokens):
             if t in v:
                 out.add("supporting:output-contains-scratch-path-token")
         for m in re.finditer(rb"(?<![\w.])-?\d{7,}(?![\w.])", v):
-            if m.group(0).lstrip(b"-") not in tb:
+            if m.group(0).lstrip(b"-") not in tb and m.group(0) != b"2147483647":     # '?' is written as MAXINT
                 out.add("supporting:integer>=7-digits-not-in-schema-text")
                 break
     return out
@@ -217,8 +219,37 @@ def evaluate(text, stem, cfgs, wd, tools=TOOLS):
     return {"probs": probs, "info": info}
 
 
+PYHANG = [False]
+EXCL_PYHANG = ("exp2python is not run on a multi-schema file in which a schema renames a simple/aggregate type imported from another "
+               "schema (exp2python does not return: SCOPEPrint() waits for the imported type to be PROCESSED; probed at start-up)")
+_PYHANG_SRC = "SCHEMA %s;\nUSE FROM %s (t0);\nTYPE r = t0;\nEND_TYPE;\nEND_SCHEMA;\nSCHEMA %s;\nTYPE t0 = STRING;\nEND_TYPE;\nEND_SCHEMA;\n"
+
+
+def probe_pyhang():
+    """Only decides whether exp2python is run on that shape; never a verdict."""
+    wd = common.scratch("c12-pyhangprobe")
+    hung = False
+    for k, (a, b) in enumerate((("a_s", "b_s"), ("b_s", "a_s"), ("a_s", "zz_s"), ("zz_s", "a_s"))):
+        d = os.path.join(wd, "p%d" % k)
+        os.makedirs(d)
+        with open(os.path.join(d, "probe.exp"), "w") as f:
+            f.write(_PYHANG_SRC % (a, b, b))
+        rc, _o, _e, _t = common.run([c17run.TOOLS["exp2python"], "probe.exp"], cwd=d, timeout=8, env=c17run.tool_env())
+        if rc is None:
+            hung = True
+            break
+    shutil.rmtree(wd, ignore_errors=True)
+    return hung
+
+
+def pyhang_shape(f):
+    return any(t.endswith("-as-rename_plain") or t.endswith("-as-rename") for t in f["tags"])
+
+
 def setup():
     c17run.snapshot_tools("c12", "plain", scanner=True)
+    PYHANG[0] = probe_pyhang()
+    c17.HANG[0] = c17.probe_hang()
     rc, _o, _e, _t = common.run(["setarch", ARCH, "-R", "true"], timeout=20)
     if rc != 0:
         raise RuntimeError("setarch -R is not usable here (rc=%s): the ASLR dimension cannot be exercised" % rc)
@@ -241,6 +272,9 @@ def case(ctx, x):
     f, cfgs = x
     ev = ctx.ev
     tools = TOOLS
+    if c17.HANG[0] and c17.hang_shape(f):
+        ev.exclude(c17.EXCL_HANG)
+        return
     if ctx.state.get("f8_open") and has_f8_shape(f):
         probe = common.sub_seed(ctx.seed, "probe", common.chash(c17gen.render(f))) % 100 < 10
         if not probe:
@@ -249,6 +283,9 @@ def case(ctx, x):
             tools = tuple(t for t in TOOLS if t != "exp2cxx")
         else:
             ev.bump("probe-of-open-finding:" + SIG_F8)
+    if PYHANG[0] and pyhang_shape(f):
+        ev.exclude(EXCL_PYHANG)
+        tools = tuple(t for t in tools if t != "exp2python")
     text = c17gen.render(f)
     r = evaluate(text, f["stem"], cfgs, os.path.join(ctx.wd, "case"), tools)
     fh = common.chash(text)
@@ -266,7 +303,7 @@ def case(ctx, x):
         ev.case(common.chash([fh, c["tool"], c["cfg"]]), nt, classes=classes, sample=sample)
     for t in r["info"]["timeouts"]:
         ev.bump("inconclusive:%s-timeout" % t)
-        ev.inconclusive.append("%s did not return within %d s on %s" % (t, TIMEOUT, fh))
+        ev.inconclusive.append("%s did not return within %d s on %s" % (t, TIMEOUT_GEN, fh))
     if r["probs"]:
         sigs = []
         for s, _m in r["probs"]:
@@ -315,12 +352,12 @@ def shipped_cases(ev, root, tier, findings):
         cfgs = [dict(BASE), dict(BASE), off]
         if tier != "quick":
             cfgs.append(dict(BASE, deep=True, naming="rel", envpad=65536, lc_all="C.UTF-8", dirty=True))
-        base = run_tool(tool, text, stem, cfgs[0], wd, 0)
+        base = run_tool(tool, text, stem, cfgs[0], wd, 0, TIMEOUT)
         res = {"file": f, "tool": tool, "n": 0, "files": len(base["tree"]), "rc": base["rc"], "probs": [], "timeout": base["rc"] is None}
         if base["rc"] is None:
             return res
         for i in range(1, len(cfgs)):
-            r = run_tool(tool, text, stem, cfgs[i], wd, i)
+            r = run_tool(tool, text, stem, cfgs[i], wd, i, TIMEOUT)
             if r["rc"] is None:
                 res["timeout"] = True
                 continue
@@ -359,7 +396,7 @@ def shipped_cases(ev, root, tier, findings):
 def main(tier, seed):
     setup()
     workers = max(2, min(12, common.NPROC - 2))
-    n_ex = 60 if tier == "quick" else 500
+    n_ex = 90 if tier == "quick" else 350
     findings = common.Findings(c17run.findings_path())
     return c17run.run(PROP, "exploration", RULE, tier, seed, make_strategy, case, confirm, replay_files, workers, n_ex,
                       min_cases=workers * n_ex * 4,
